@@ -69,6 +69,8 @@ var fnValues = []string{
 	"$sum", "function(){1}", "function($x){$x}", "function($x,$y,$z){[$x,$y,$z]}", "function($x)<n>{$x}", "function($x,$y)<s-n?>{$x}", "function($x)<x+>{$x}",
 	"$substring(?, 1)", "$append(?, ?)", "($string ~> $uppercase)", "($sum ~> $string ~> $length)", "(function($x){$x} ~> $count)", "|$|{\"t\":1}|", "/a(b)?/", "/a/(\"abab\").next",
 	"($uppercase ~> /A/)", "$each(?, function($v,$k){$k})",
+	// function values that went through a library function (stored by value)
+	"$distinct($sum)", "($distinct($sum) ~> $string)", "($string ~> $distinct($uppercase))", "$single($sum, function($f){true})", "$reverse([$sum, $max])[0]", "$sort($count)[0]",
 }
 
 // sweepCase returns the i-th call of the systematic sweep.
@@ -196,7 +198,7 @@ func decodeDoc(doc string) interface{} {
 func init() {
 	rule := "cases: (a) systematic sweep of every built-in x every arity 0..min(declared+1,3) x every tuple of 10 argument kinds (number,string,boolean,null,array,nested array,object,function,missing,input path), exhaustive over kind tuples; " +
 		"(b) PRNG-generated type-chaotic programs of depth 3..6 over every node type (paths, wildcards, predicates, sorts, groupings, transforms, lambdas with signatures, partials, chains, functions used as data, bounded recursion) on generated JSON documents with nulls, empty containers and arrays nested in arrays. " +
-		"(c) every fourth generated case probes the edges of the picture grammars and of the matcher protocol: $fromMillis/$toMillis with generated date pictures (width modifiers up to 100 and malformed, presentation strings of up to 70 digits, non-ASCII digit families) over extreme instants, $formatNumber with pictures of up to 70+70 digits, 25-digit exponents, 300 mandatory digits and malformed pictures over extreme doubles, $formatBase/$round/$number at the edges of their domains, and $split/$replace/$match/$contains called with user-written matcher functions whose match/start/end/groups/next fields are ill-typed, out of range, out of order or absent. " +
+		"(c) every fourth generated case probes the edges of the picture grammars and of the matcher protocol: $fromMillis/$toMillis with generated date pictures (width modifiers up to 100 and malformed, presentation strings of up to 70 digits, non-ASCII digit families) over extreme instants, $formatNumber with pictures of up to 70+70 digits, 25-digit exponents, 300 mandatory digits and malformed pictures over extreme doubles, $formatBase/$round/$number at the edges of their domains, and $split/$replace/$match/$contains called with user-written matcher functions whose match/start/end/groups/next fields are ill-typed, out of range, out of order or absent, and name steps, predicates, wildcards and compositions on function values (direct, and stored by value after $distinct/$sort/$single/$reverse) whose names coincide with the fields of the evaluator's function objects. " +
 		"non-trivial = the program compiled and Eval was actually entered (compile errors are not counted); distinct by (program text, input)"
 	fw.Register(&fw.Prop{
 		ID: "C09", Title: "Eval is total", Rule: rule,
